@@ -28,7 +28,7 @@ ASSUMPTIONS = ["values are float32-exact dyadics so that a float32 carrier is th
 EXHAUSTIVE_ALL = False
 
 DATA_CARRIERS = ["list-none", "tuple-none", "list-nan", "tuple-nan", "f32", "object", "masked-finite", "masked-nan",
-                 "series", "series-shifted", "dask", "int", "int16", "uint8", "int32", "int8"]
+                 "series", "series-shifted", "dask", "int", "int16", "uint8", "int32", "int8", "f16", "masked-fill-is-a-value"]
 TIME_CARRIERS = [c for c in gen.TIME_CARRIERS if c != "dt64ns"]
 REVERSE_SPANS = False  # toggled per logical case by run()
 T0F = float(gen.T0)
@@ -49,6 +49,18 @@ def dcar(x, how, poison=1.0):
         return tuple(gen.nanlist(x))
     if how == "f32":
         return gen.arr(x).astype(np.float32)
+    if how == "f16":
+        if any(v is not None and float(np.float16(v)) != v for v in x):
+            return None  # not the same logical series in half precision
+        return gen.arr(x).astype(np.float16)
+    if how == "masked-fill-is-a-value":
+        # a masked array whose fill_value happens to equal one of its (unmasked, perfectly good) observations
+        present = [v for v in x if v is not None]
+        if not present:
+            return None
+        ma = np.ma.MaskedArray(np.array([poison if v is None else v for v in x], dtype=float), mask=[v is None for v in x])
+        ma.fill_value = present[len(x) % len(present)]
+        return ma
     if how == "object":
         return np.array(list(x), dtype=object)
     if how == "masked-finite":
@@ -94,8 +106,11 @@ def cases(rng):
     lat = [None if rng.random() < pm / 2 else 50.0 + 0.125 * rng.randrange(0, 9) for _ in range(n)]
     x = [None if v is None else v + OFF for v in x]
     if intvals and OFF == 0.0 and rng.random() < 0.6:
-        lo_, hi_ = rng.choice([(100, 127), (180, 250), (15000, 17000), (-30000, -20000), (2 ** 30, 2 ** 30 + 2000)])
+        lo_, hi_ = rng.choice([(100, 127), (180, 250), (15000, 17000), (-30000, -20000), (2 ** 30, 2 ** 30 + 2000), (33280, 57600)])
         x = [float(rng.randrange(lo_, hi_ + 1)) for _ in range(n)]
+        if lo_ == 33280:
+            # multiples of 32 above 2^15: exact in half precision, their neighbour sums are not even finite there
+            x = [float(32 * rng.randrange(lo_ // 32, hi_ // 32 + 1)) for _ in range(n)]
         if rng.random() < 0.5 and n >= 3:
             x[n // 2] = float(lo_ if x[n // 2] > (lo_ + hi_) / 2 else hi_)
         span_lo, span_hi = lo_ + (hi_ - lo_) // 4, hi_ - (hi_ - lo_) // 4
@@ -172,8 +187,12 @@ def build(roles, vary=None, how=None, func=None):
             c = how if mine else "baseline"
             if c == "f32" and kind != "aux" and any(v is not None and float(np.float32(v)) != v for v in val):
                 return None  # not the same logical series in float32
-            if kind == "data-nomissing" and c in ("list-none", "tuple-none", "masked-finite", "masked-nan", "object"):
+            if kind == "data-nomissing" and c in ("list-none", "tuple-none", "masked-finite", "masked-nan", "object", "masked-fill-is-a-value"):
                 return None
+            if c == "f16" and func == "axds.valid_range_test":
+                sp = roles.get("valid_span", (None, []))[1]
+                if any(b is not None and float(np.float16(b)) != b for b in sp):
+                    return None  # the span is cast to the data's dtype: only spans half precision can hold are the same span
             v = dcar(val, c, poison=POISON[len(val) % len(POISON)] if kind != "aux" else (val[0] if val and val[0] is not None else 1.0))
             if v is None:
                 return None
